@@ -464,7 +464,8 @@ def stdout_rules(F, rep, cg, root, rwa, reach):
     root_path, rwa_path = root.path, rwa.path
     root = mir.inlined(F, root, depth=2, ok=app_ok)
     rwa = mir.inlined(F, rwa, depth=2, ok=app_ok)
-    # R13.2 who may touch stdout
+    # R13.2 who may touch stdout: run() and the private helpers of cli::app that only run() reaches
+    runset = mir.private_helpers_of(F, cg, ROOT, "crate::cli::app::") - {RWA}
     n = 0
     for p in sorted(reach):
         f = F.fns.get(p)
@@ -472,11 +473,11 @@ def stdout_rules(F, rep, cg, root, rwa, reach):
         for bi, t in f.calls():
             if mir.call_matches(t, ("std::io::stdout", "std::io::_print")):
                 n += 1
-                if f.path == ROOT: rep.ok("R13.2", "stdout handle / print in run() only", sample="bb%d %s" % (bi, mir.callee(t)), nontrivial_key="so%d" % bi)
+                if f.path in runset: rep.ok("R13.2", "stdout handle / print in run() only" + ("" if f.path == ROOT else " (its private helper %s)" % f.path.rsplit("::", 1)[-1]), sample="bb%d %s" % (bi, mir.callee(t)), nontrivial_key="so%d" % bi)
                 else: rep.bad("R13.2", "stdout-outside-run:" + f.path.replace("crate::", ""), "%s is used outside cli::app::run (a diagnostic or log could reach stdout)" % mir.callee(t), "%s bb%d" % (f.where(), bi))
         # fn items used as values (with_writer(std::io::stdout))
         for x in cg.addr.get(p, ()):
-            if x in ("std::io::stdout",) and f.path != ROOT:
+            if x in ("std::io::stdout",) and f.path not in runset:
                 rep.bad("R13.2", "stdout-fnitem:" + f.path.replace("crate::", ""), "std::io::stdout passed as a function value in %s" % f.path, f.where())
     rep.floor("R13.2", "stdout uses found in run()", n, 2)
     # R13.3 in run_with_args every write to the writer is dominated by the success edge of its pipeline call and prints that payload
@@ -578,6 +579,25 @@ def stdout_rules(F, rep, cg, root, rwa, reach):
                                             if st3[0] == "=" and st3[1] == [0] and st3[2][0] == "use" and st3[2][1][0] == "c" and st3[2][1][1].get("v") is True:
                                                 for d3, pol3, dd3 in mir.guards_of(c_, b3):
                                                     if d3[0] == "discr" and "clap::error::ErrorKind" in str(d3[2]) and isinstance(pol3, tuple) and pol3[0] == "in": kinds |= set(pol3[1])
+            if not kinds:
+                # the print sits under a variant of a private enum of cli::app (`Err(Interruption::HelpOrVersion(e)) => print!`): the kinds
+                # are those under which that variant is built, at every site that builds it
+                for d, pol, dd in gs:
+                    if not (d[0] == "discr" and "crate::cli::app::" in str(d[2]) and isinstance(pol, tuple) and pol[0] == "in" and len(pol[1]) == 1): continue
+                    vname = list(pol[1])[0]; built = []; open_ = False
+                    for p2, g2 in F.fns.items():
+                        if "crate::cli::app::" not in p2: continue
+                        for b3, s3, st3 in g2.stmts():
+                            if st3[0] == "=" and st3[2][0] == "agg" and isinstance(st3[2][1], dict) and st3[2][1].get("k") == "adt" and st3[2][1].get("variant") == vname and "crate::cli::app::" in str(st3[2][1].get("adt")):
+                                ks = set()
+                                for d3, pol3, dd3 in mir.guards_of(g2, b3):
+                                    if d3[0] == "discr" and "clap::error::ErrorKind" in str(d3[2]) and isinstance(pol3, tuple) and pol3[0] == "in": ks |= set(pol3[1])
+                                built.append(ks)
+                                if not ks: open_ = True
+                        for b3, t3 in g2.calls():
+                            if any(a3[0] == "c" and a3[1].get("k") == "fn" and str(a3[1].get("path")).endswith("::" + vname) and "crate::cli::app::" in str(a3[1].get("path")) for a3 in t3[2]): open_ = True     # the variant used as a function value
+                    if built and not open_:
+                        for ks in built: kinds |= ks
             if kinds and kinds <= {"DisplayHelp", "DisplayVersion"}: rep.ok("R13.4", "stdout print only for clap kinds %s" % sorted(kinds), nontrivial_key="kinds")
             else: rep.bad("R13.4", "print-on-error", "run() prints to stdout on an error path not confined to DisplayHelp/DisplayVersion (guards: %s)" % sorted(kinds), "%s bb%d" % (root.where(), bi))
     # R13.5 logging goes to stderr
